@@ -16,6 +16,11 @@ Definition refutes (ops : list op) (bit : Z) : Prop :=
   modelled false empty_coll ops = true /\
   c05_reasons ops (model_obs false empty_coll ops) = bit.
 
+Definition now_holds (ops : list op) : Prop :=
+  c05_ok ops (model_obs false empty_coll ops) = true /\
+  modelled false empty_coll ops = true /\
+  c05_reasons ops (model_obs false empty_coll ops) = 0.
+
 (* 4 = F-ID-RETYPE (genuine defect of the library).  _update refuses to change _id only when
    old != new under Python ==, so {$set: {_id: 1.0}} / {_id: True} on {_id: 1} succeeds: the
    document now carries an _id that differs (type / BSON value) from the key it is stored
@@ -32,11 +37,18 @@ Example refuted_retype_bool :
                    (VDoc [("$set", VDoc [("_id", VBool true); ("x", VInt 1)])]) false false] 4.
 Proof. vm_compute. repeat split; reflexivity. Qed.
 
-(* same class through a replacement: the new document takes its _id from the FILTER, so
-   replace_one({_id: 1.0}, {x: 1}) turns {_id: 1} into {_id: 1.0, x: 1} *)
+(* WAS the same class through a replacement (refutes ... 4): the new document took its _id from
+   the FILTER, so replace_one({_id: 1.0}, {x: 1}) turned {_id: 1} into {_id: 1.0, x: 1}.
+   repaired in the library: the _id is taken from the document being replaced; the history now
+   stores {_id: 1, x: 1} under the key 1, the predicate holds and the history is inside the
+   guard (c05_reasons = 0). *)
 Example refuted_retype_replace_filter :
-  refutes [OInsertOne (VDoc [("_id", VInt 1); ("x", VInt 0)]);
-           OReplace (VDoc [("_id", VDbl 8)]) (VDoc [("x", VInt 1)]) false] 4.
+  let ops := [OInsertOne (VDoc [("_id", VInt 1); ("x", VInt 0)]);
+              OReplace (VDoc [("_id", VDbl 8)]) (VDoc [("x", VInt 1)]) false] in
+  now_holds ops /\
+  map (fun ob : obs => snd (fst ob)) (model_obs false empty_coll ops)
+  = [[(VInt 1, VDoc [("_id", VInt 1); ("x", VInt 0)])];
+     [(VInt 1, VDoc [("_id", VInt 1); ("x", VInt 1)])]].
 Proof. vm_compute. repeat split; reflexivity. Qed.
 
 (* same class with a sub-document _id whose keys are reordered (dict == ignores order) *)
@@ -53,11 +65,6 @@ Proof. vm_compute. repeat split; reflexivity. Qed.
    both stored documents carried the same _id.  The store is now keyed by the normalised _id:
    the second insert is rejected with DuplicateKeyError, the predicate holds and the history
    is inside the guard. *)
-Definition now_holds (ops : list op) : Prop :=
-  c05_ok ops (model_obs false empty_coll ops) = true /\
-  modelled false empty_coll ops = true /\
-  c05_reasons ops (model_obs false empty_coll ops) = 0.
-
 Example submillisecond_ids_now_holds :
   now_holds [OInsertOne (VDoc [("_id", VDate 1000 None)]);
              OInsertOne (VDoc [("_id", VDate 1001 None)])] /\
